@@ -2097,6 +2097,12 @@ pub fn minimal_family() -> Vec<Member> {
         ("memory-max-65536-pages", r#"(module (memory 1 65536) (func (export "f") (result i32) (i32.const 8355) (drop) (memory.size)))"#),
         ("memory-min-65536-pages", r#"(module (memory 65536) (func (export "f") (result i32) (i32.const 8356) (drop) (memory.size)))"#),
         ("imported-memory-max-65536-pages", r#"(module (import "e" "m" (memory 1 65536)) (func (export "f") (result i32) (i32.const 8357) (drop) (i32.load (i32.const 0))))"#),
+        ("memory-max-65536-pages-size-dropped", r#"(module (memory 1 65536) (func (export "f") (i32.const 8370) (drop) (memory.size) (drop)))"#),
+        ("memory-min-65536-pages-size-dropped", r#"(module (memory 65536) (func (export "f") (i32.const 8371) (drop) (memory.size) (drop)))"#),
+        ("imported-memory-max-65536-pages-size-dropped", r#"(module (import "e" "m" (memory 1 65536)) (func (export "f") (i32.const 8372) (drop) (memory.size) (drop)))"#),
+        ("memory-max-65535-pages", r#"(module (memory 1 65535) (func (export "f") (i32.const 8373) (drop) (memory.size) (drop)))"#),
+        ("table-max-u32", r#"(module (table 1 4294967295 funcref) (func (export "f") (i32.const 8374) (drop) (table.size 0) (drop)))"#),
+        ("imported-table-max-u32", r#"(module (import "e" "t" (table 1 4294967295 funcref)) (func (export "f") (i32.const 8375) (drop)))"#),
         ("imported-table-named", r#"(module (import "env" "tbl" (table $t 4 funcref)) (table $own 2 funcref) (func $f (export "f") (result i32) (i32.const 8358) (drop) (i32.add (table.size $t) (table.size $own))))"#),
         // two functions whose operator counts in the input order them differently from their counts
         // after a round trip (nops and dead code disappear, an else-less if may gain an `else`)
